@@ -111,3 +111,5 @@ def run(ctx):
     lattice(ctx, rnd)
     from checks import ext_iter   # EXT: EdgeIterator, ShapeIndexRegion (spec/Iterators.tla, spec/Gen_IterRegions.tla)
     ext_iter.run_c06(ctx)
+    from checks import ext_clip   # EXT: edge_clipping.go, ShrinkToFit (spec/Clipping.tla, spec/Gen_Clip.tla)
+    ext_clip.run(ctx)
